@@ -34,7 +34,10 @@ pub fn write(
                 // table isn't loaded.
                 if let Some(path) = &dumper.mappings[map_idx].name {
                     let path = std::path::Path::new(&path);
-                    if path.exists() {
+                    // Never open files under /dev (see is_mapped_file_safe_to_open)
+                    if MappingInfo::is_mapped_file_safe_to_open(&dumper.mappings[map_idx].name)
+                        && path.exists()
+                    {
                         log::debug!("failed to get build id from process memory ({e}), attempting to retrieve from {}", path.display());
                         return BuildId::read_from_file(path)
                             .map_err(errors::DumperError::ModuleReaderError);
